@@ -601,10 +601,36 @@ def _probe_copy(p, memo):
     return Probe(copy.deepcopy(p.m, memo))
 
 
+class Holder:
+    """an ordinary (non spec-class) object that refers to modules, directly and inside a container"""
+    def __init__(self, m, level=0, inner=None):
+        self.m, self.level, self.inner = m, level, inner
+
+    def __repr__(self):
+        return f"Holder({getattr(self.m, '__name__', self.m)!r}, {self.level}, {self.inner!r})"
+
+
+from spec_classes import MISSING as MISSING_  # noqa: E402
+
+
+class MList(list):
+    """a list subclass: copied through __reduce_ex__, never by the library's shortcuts for builtin containers"""
+
+
+class CheckFailed(AssertionError):
+    """the result of an operation is not what the property promises (raised by the harness' own result check;
+    never planned, so the oracle reports the operation as having raised on its own)"""
+
+
 def same_copy(a, b, top=True):
     """b is a faithful deep copy of a: same shape, modules by identity"""
     if isinstance(a, ModuleType):
         return a is b
+    if isinstance(a, Holder):
+        return type(b) is Holder and b.level == a.level and same_copy(a.m, b.m, False) \
+            and same_copy(a.inner, b.inner, False)
+    if isinstance(a, (set, frozenset)):
+        return type(a) is type(b) and len(a) == len(b) and all(any(x is y for y in b) for x in a)
     if isinstance(a, Probe):
         return isinstance(b, Probe) and b is not a and b.m is a.m
     if isinstance(a, (list, tuple)):
@@ -616,6 +642,277 @@ def same_copy(a, b, top=True):
         db = object.__getattribute__(b, "__dict__")
         return type(a) is type(b) and list(da) == list(db) and all(same_copy(da[k], db[k], False) for k in da)
     return a == b
+
+
+# ------------------------------------------------------------------ modules in plain containers and plain objects
+# (added after seeded change C20-E1 was missed): every library call site that copies -- protect_via_deepcopy and
+# copy.deepcopy -- has to be reached with a value whose modules are NOT wrapped in a spec instance (a spec instance
+# protects its own copy through __deepcopy__, which hides a call site that forgot the guard).
+def make_zoo():
+    import math
+    from typing import Any, Dict, List, Set
+    from spec_classes import Alias
+
+    @spec_class
+    class Cust:
+        """a spec class with its own __deepcopy__ that does NOT protect itself (like Probe): it is copied
+        successfully only while the library's guard is active"""
+        m: Any = None
+        n: int = 0
+
+        def __deepcopy__(self, memo):
+            new = type(self).__new__(type(self))
+            for k, v in object.__getattribute__(self, "__dict__").items():
+                object.__getattribute__(new, "__dict__")[k] = copy.deepcopy(v, memo)
+            return new
+
+    @spec_class
+    class Zoo:
+        mods: List[ModuleType] = [sys]
+        table: Dict[str, Any] = {"d": [os]}
+        mset: Set[ModuleType] = set()
+        extra: Any = None
+        anys: List[Any] = []
+        hold: Holder
+        one: Cust
+        custs: List[Cust] = []
+        plist: List[ModuleType] = []
+        al: Any = Alias("nothing_there", fallback=[sys, {"k": os}, Holder(math)])
+
+        def _prepare_plist_item(self, item):     # an item preparer: whole collections handed over are normalised in a copy
+            return item
+
+        def __post_copy__(self):
+            hook()
+
+    @spec_class
+    class ZooKid(Zoo):
+        """a spec subclass: attributes owned by the parent are copied before the parent's constructor runs"""
+        own: List[Any] = [os]
+
+    CLS["Cust"], CLS["Zoo"], CLS["ZooKid"] = Cust, Zoo, ZooKid
+    RAW_DEFAULTS["Cust"] = dict(m=None, n=0)
+    RAW_DEFAULTS["Zoo"] = {}
+    RAW_DEFAULTS["ZooKid"] = {}
+    ZOO_FALLBACK[0] = Zoo.__dict__["al"].fallback if "al" in Zoo.__dict__ else None
+
+
+ZOO_FALLBACK = [None]
+
+
+def zoo_values(kid=False, probes=False):
+    """fresh module-bearing values for every attribute of Zoo, built without library code: modules directly in
+    list/dict/set/tuple (nested), in plain objects, in a list subclass and in a spec instance whose copy does not
+    protect itself; some values raise in __deepcopy__ when armed (Flaky)"""
+    import math
+    P = (lambda m: Probe(m)) if probes else (lambda m: m)
+    F = (lambda: P(os)) if probes else Flaky
+    d = dict(mods=[sys, os], table={"j": json, "n": {"o": [P(os)], "f": F()}},
+             mset={sys, os},
+             extra=[Holder(json, inner=[P(os)]), (sys, {"k": math}), F()],
+             anys=[[json], (os, [P(sys)]), Holder(math, inner={"k": F()})],
+             hold=Holder(sys, inner=(os, [P(json)])),
+             one=raw("Cust", m=[P(sys), {"k": os}, F()]),
+             custs=[raw("Cust", m=(os, [P(sys)]))],
+             plist=MList([sys, os]))
+    if kid:
+        d["own"] = [P(sys), {"k": [os]}]
+    return d
+
+
+def zoo_base(kid=False, probes=False):
+    return raw("ZooKid" if kid else "Zoo", **zoo_values(kid, probes))
+
+
+def zoo_ensure(z):
+    """make every operation of the pool applicable whatever the history did before: attributes that are absent
+    or empty are refilled (raw: no library code runs)"""
+    d = object.__getattribute__(z, "__dict__")
+    for k, v in zoo_values(kid=isinstance(z, CLS["ZooKid"])).items():
+        if k not in d or d[k] is None or (isinstance(d[k], (list, dict, set, tuple)) and not d[k]):
+            d[k] = v
+    if not isinstance(d["extra"], list):
+        d["extra"] = list(d["extra"]) if isinstance(d["extra"], tuple) else [d["extra"]]
+    return z
+
+
+def zoo_check(z, r, changed=(), post=None, inplace=False):
+    """r is the result of a helper called on z: same class, attributes the helper did not address are faithful
+    copies (modules by identity), the addressed one is what `post` says"""
+    if type(r) is not type(z):
+        raise CheckFailed(f"result is a {type(r).__name__}, not a {type(z).__name__}")
+    if inplace and r is not z:
+        raise CheckFailed("in-place call returned another object")
+    zd, rd = object.__getattribute__(z, "__dict__"), object.__getattribute__(r, "__dict__")
+    for a in zd:
+        if a in changed:
+            continue
+        if a not in rd or not same_copy(zd[a], rd[a]):
+            raise CheckFailed(f"attribute {a} of the result is not a faithful copy: {rd.get(a)!r} from {zd[a]!r}")
+    if post is not None and not post(r):
+        raise CheckFailed(f"attribute(s) {list(changed)} of the result are not as expected: "
+                          f"{[rd.get(a) for a in changed]!r}")
+    return r
+
+
+def _bump(v):
+    """a transform that MUTATES what it is given (it must have been given a copy)"""
+    if isinstance(v, Holder):
+        v.level += 1
+    elif isinstance(v, list):
+        v.append(sys)
+    elif isinstance(v, dict):
+        v["bumped"] = sys
+    elif isinstance(v, set):
+        v.add(json)
+    return v
+
+
+def zoo_ops():
+    import math
+    from spec_classes import MISSING
+    Zoo, ZooKid = CLS["Zoo"], CLS["ZooKid"]
+
+    def Z(c):
+        return zoo_ensure(c["z"])
+
+    def put(c, r, changed=(), post=None, inplace=False):
+        zoo_check(c["z"], r, changed, post, inplace)
+        c["z"] = r
+
+    def new(c, cls, kid, default=False):
+        vals = {} if default else zoo_values(kid)
+        r = cls(**vals)
+        rd = object.__getattribute__(r, "__dict__")
+        for a, v in vals.items():
+            if a not in rd or not same_copy(v, rd[a]):
+                raise CheckFailed(f"constructor argument {a} not copied faithfully: {rd.get(a)!r} from {v!r}")
+        if default and not (same_copy([sys], rd.get("mods")) and same_copy({"d": [os]}, rd.get("table"))):
+            raise CheckFailed(f"defaults not copied faithfully: {rd!r}")
+        c["z"] = r
+
+    def first_key(z, avoid=()):
+        return next(k for k in z.table if k not in avoid)
+
+    def alias_read(c):
+        v = Z(c).al
+        if "al" in object.__getattribute__(c["z"], "__dict__") or hasattr(c["z"], "nothing_there"):
+            return
+        if not same_copy(ZOO_FALLBACK[0], v) or v is ZOO_FALLBACK[0]:
+            raise CheckFailed(f"alias fallback not copied faithfully: {v!r}")
+
+    ops = {
+        # constructors: arguments holding modules in plain containers / plain objects; spec subclass (parent-owned
+        # attributes are copied before the parent's constructor runs)
+        "z_new": lambda c: new(c, Zoo, False),
+        "z_new_default": lambda c: new(c, Zoo, False, True),
+        "zk_new": lambda c: new(c, ZooKid, True),
+        "zk_new_default": lambda c: new(c, ZooKid, True, True),
+        # update_<attr> / transform_<attr>: start from a copy of the value the attribute holds
+        "z_transform_mods": lambda c: put(c, Z(c).transform_mods(lambda l: l + [math]), ["mods"],
+                                          lambda r: r.mods[-1] is math and r.mods[0] is c["z"].mods[0]),
+        "z_transform_table": lambda c: put(c, Z(c).transform_table(_bump), ["table"],
+                                           lambda r: r.table["bumped"] is sys and "bumped" not in c["z"].table
+                                           and same_copy(c["z"].table, {k: v for k, v in r.table.items() if k != "bumped"})),
+        "z_transform_mset": lambda c: put(c, Z(c).transform_mset(lambda s: s | {math}), ["mset"],
+                                          lambda r: math in r.mset and sys in r.mset),
+        "z_transform_extra": lambda c: put(c, Z(c).transform_extra(_bump), ["extra"],
+                                           lambda r: r.extra[-1] is sys and len(r.extra) == len(c["z"].extra) + 1
+                                           and same_copy(c["z"].extra, r.extra[:-1])),
+        "z_transform_hold": lambda c: put(c, Z(c).transform_hold(_bump), ["hold"],
+                                          lambda r: r.hold.level == c["z"].hold.level + 1 and r.hold is not c["z"].hold
+                                          and same_copy(c["z"].hold.inner, r.hold.inner) and r.hold.m is c["z"].hold.m),
+        "z_transform_anys": lambda c: put(c, Z(c).transform_anys(_bump), ["anys"],
+                                          lambda r: same_copy(c["z"].anys, r.anys[:-1])),
+        "z_transform_plist": lambda c: put(c, Z(c).transform_plist(_bump), ["plist"],
+                                           lambda r: same_copy(list(c["z"].plist), list(r.plist[:-1]))),
+        "z_transform_one_attr": lambda c: put(c, Z(c).transform_one(n=lambda n: n + 1), ["one"],
+                                              lambda r: r.one.n == c["z"].one.n + 1 and same_copy(c["z"].one.m, r.one.m)),
+        "z_transform_one": lambda c: put(c, Z(c).transform_one(lambda o: o), ["one"],
+                                         lambda r: same_copy(c["z"].one, r.one) and r.one is not c["z"].one),
+        "z_transform_al": lambda c: Z(c).transform_al(_bump),
+        "z_transform_extra_raise": lambda c: Z(c).transform_extra(_raising),
+        "z_transform_one_raise": lambda c: Z(c).transform_one(n=_raising),
+        "z_update_extra_same": lambda c: put(c, Z(c).update_extra(MISSING), [], None),
+        "z_update_mods_same": lambda c: put(c, Z(c).update_mods(MISSING), [], None),
+        "z_update_table_same": lambda c: put(c, Z(c).update_table(MISSING), [], None),
+        "z_update_hold_same": lambda c: put(c, Z(c).update_hold(MISSING), [], None),
+        "z_update_one_attr": lambda c: put(c, Z(c).update_one(n=7), ["one"],
+                                           lambda r: r.one.n == 7 and same_copy(c["z"].one.m, r.one.m)),
+        "z_update_extra_new": lambda c: put(c, Z(c).update_extra([Holder(os), sys]), ["extra"],
+                                            lambda r: same_copy([Holder(os), sys], r.extra)),
+        # with_<attr>: the instance is copied; an existing value handed over with keywords is copied first
+        "z_with_one_attr": lambda c: put(c, Z(c).with_one(c["z"].one, n=4), ["one"],
+                                         lambda r: r.one.n == 4 and same_copy(c["z"].one.m, r.one.m)),
+        "z_with_extra": lambda c: put(c, Z(c).with_extra([Holder(os, inner=[sys]), math]), ["extra"],
+                                      lambda r: same_copy([Holder(os, inner=[sys]), math], r.extra)),
+        "z_with_plist": lambda c: put(c, Z(c).with_plist(MList([math, sys])), ["plist"],
+                                      lambda r: same_copy([math, sys], list(r.plist))),
+        "z_update": lambda c: put(c, Z(c).update(extra=[math, (os,)], hold=Holder(os, 2, [sys])), ["extra", "hold"],
+                                  lambda r: same_copy([math, (os,)], r.extra) and same_copy(Holder(os, 2, [sys]), r.hold)),
+        # element helpers: the collection is copied
+        "z_with_mod": lambda c: put(c, Z(c).with_mod(math), ["mods"], lambda r: r.mods[-1] is math),
+        "z_without_mod": lambda c: put(c, Z(c).without_mod(c["z"].mods[0]), ["mods"],
+                                       lambda r: len(r.mods) == len(c["z"].mods) - 1),
+        "z_transform_mod": lambda c: put(c, Z(c).transform_mod(0, lambda m: math, _by_index=True), ["mods"],
+                                         lambda r: r.mods[0] is math and same_copy(c["z"].mods[1:], r.mods[1:])),
+        "z_update_mod": lambda c: put(c, Z(c).update_mod(0, json, _by_index=True), ["mods"],
+                                      lambda r: r.mods[0] is json and same_copy(c["z"].mods[1:], r.mods[1:])),
+        "z_with_table_item": lambda c: put(c, Z(c).with_table_item("q", [math, {"k": sys}]), ["table"],
+                                           lambda r: same_copy([math, {"k": sys}], r.table["q"])),
+        "z_without_table_item": lambda c: put(c, Z(c).without_table_item(first_key(Z(c))), ["table"],
+                                              lambda r: len(r.table) == len(c["z"].table) - 1),
+        "z_transform_table_item": lambda c: put(c, Z(c).transform_table_item(first_key(Z(c)), lambda v: [v, os]),
+                                                ["table"], lambda r: len(r.table) == len(c["z"].table)),
+        "z_update_table_item": lambda c: put(c, Z(c).update_table_item(first_key(Z(c)), {"z": sys}), ["table"],
+                                             lambda r: same_copy({"z": sys}, r.table[first_key(c["z"])])),
+        "z_with_mset_item": lambda c: put(c, Z(c).with_mset_item(math), ["mset"], lambda r: math in r.mset),
+        "z_without_mset_item": lambda c: put(c, Z(c).without_mset_item(next(iter(Z(c).mset))), ["mset"],
+                                             lambda r: len(r.mset) == len(c["z"].mset) - 1),
+        "z_with_any": lambda c: put(c, Z(c).with_any([math, Holder(sys)]), ["anys"],
+                                    lambda r: same_copy(c["z"].anys + [[math, Holder(sys)]], r.anys)),
+        "z_transform_any": lambda c: put(c, Z(c).transform_any(0, lambda v: [v, sys], _by_index=True), ["anys"],
+                                         lambda r: same_copy([c["z"].anys[0], sys], r.anys[0])),
+        "z_update_any": lambda c: put(c, Z(c).update_any(0, Holder(sys, 1, [os]), _by_index=True), ["anys"],
+                                      lambda r: same_copy(Holder(sys, 1, [os]), r.anys[0])),
+        "z_with_cust_attr": lambda c: put(c, Z(c).with_cust(c["z"].custs[0], n=3), ["custs"],
+                                          lambda r: r.custs[-1].n == 3 and same_copy(c["z"].custs[0].m, r.custs[-1].m)),
+        "z_update_cust_attr": lambda c: put(c, Z(c).update_cust(0, n=5), ["custs"],
+                                            lambda r: r.custs[0].n == 5 and same_copy(c["z"].custs[0].m, r.custs[0].m)),
+        "z_transform_cust_attr": lambda c: put(c, Z(c).transform_cust(0, n=lambda n: n + 1), ["custs"],
+                                               lambda r: r.custs[0].n == c["z"].custs[0].n + 1
+                                               and same_copy(c["z"].custs[0].m, r.custs[0].m)),
+        "z_with_plist_item": lambda c: put(c, Z(c).with_plist_item(math), ["plist"], lambda r: r.plist[-1] is math),
+        # in place: nothing is copied, nothing may be left behind either
+        "z_inplace_mod": lambda c: put(c, Z(c).with_mod(math, _inplace=True), ["mods"], None, True),
+        "z_inplace_transform": lambda c: put(c, Z(c).transform_extra(_bump, _inplace=True), ["extra"], None, True),
+        "z_inplace_update_one": lambda c: put(c, Z(c).update_one(n=9, _inplace=True), ["one"], None, True),
+        # defaults, alias fallback, whole-instance copies
+        "z_alias_read": alias_read,
+        "z_reset_mods": lambda c: put(c, Z(c).reset_mods(), ["mods"], lambda r: same_copy([sys], r.mods)),
+        "z_reset_table": lambda c: put(c, Z(c).reset_table(), ["table"], lambda r: same_copy({"d": [os]}, r.table)),
+        "z_reset_extra": lambda c: put(c, Z(c).reset_extra(), ["extra"], lambda r: r.extra is None),
+        "z_del_table": lambda c: delattr(Z(c), "table"),
+        "z_reset_all": lambda c: c.__setitem__("z", Z(c).reset()),
+        "z_deepcopy": lambda c: put(c, copy.deepcopy(Z(c)), [], None),
+        "z_deepcopy_nested": lambda c: put(c, copy.deepcopy([{"k": (Z(c),)}])[0]["k"][0], [], None),
+        "z_protect": lambda c: put(c, mutation.protect_via_deepcopy([sys, {"z": Z(c)}])[1]["z"], [], None),
+        "z_protect_values": lambda c: [zoo_protect(v) for v in zoo_values(True).values()],
+    }
+    return ops
+
+
+def zoo_protect(v):
+    r = mutation.protect_via_deepcopy(v)
+    if not same_copy(v, r):
+        raise CheckFailed(f"protect_via_deepcopy: {r!r} from {v!r}")
+    return r
+
+
+ZOO_COPYING = ["z_new", "zk_new", "z_transform_table", "z_transform_extra", "z_transform_anys", "z_transform_one_attr",
+               "z_transform_one", "z_update_extra_same", "z_update_table_same", "z_update_one_attr", "z_with_one_attr",
+               "z_with_extra", "z_update", "z_with_any", "z_with_table_item", "z_update_table_item", "z_with_mod",
+               "z_reset_mods", "z_deepcopy", "z_deepcopy_nested", "z_protect", "z_protect_values"]
 
 
 # ------------------------------------------------------------------ sequential histories
@@ -668,6 +965,7 @@ def op_pool(rng):
         "reset_extra": lambda c: c.__setitem__("n", c["n"].reset_extra()),
         "deepcopy_dict": lambda c: copy.deepcopy({"a": [c["n"]], "b": (c["n"],)}),
     }
+    ops.update(zoo_ops())
     return ops
 
 
@@ -679,7 +977,7 @@ def _raising(_):
     raise Boom()
 
 
-def run_history(hist, user, created0, inject=None, boom=None, flaky=None):
+def run_history(hist, user, created0, inject=None, boom=None, flaky=None, zkid=False):
     """hist: list of op names.  inject = (op index, k): exception at the k-th line of that op.
     boom = (op index, k): __post_copy__ raises at its k-th call within that op.
     Returns dict(events, planned, lines per op)."""
@@ -688,7 +986,7 @@ def run_history(hist, user, created0, inject=None, boom=None, flaky=None):
     base = raw("Node", kids=[raw("Leaf", ms=[sys, Flaky()])], table={"a": raw("Leaf", ms=[Flaky()])}, extra=[Flaky()])
     reset_process_state(user, created0)
     LOG.clear()
-    ctx, planned, nlines, fired_at, errors = {"n": base}, [], [], None, []
+    ctx, planned, nlines, fired_at, errors = {"n": base, "z": zoo_base(kid=zkid)}, [], [], None, []
     for j, name in enumerate(hist):
         BOOM[0], BOOM_FIRED[0], TRANSFORM_FIRED[0] = None, False, False
         FLAKY[0], FLAKY_FIRED[0] = None, False
@@ -729,23 +1027,42 @@ def seq_case_term(user, created0, events, planned):
 def gen_seq_cases(rng, tier):
     """-> list of dicts(kind, hist, user, created0, inject, boom)"""
     quick = tier == "quick"
-    names = list(op_pool(None))
+    allnames = list(op_pool(None))
+    znames = [n for n in allnames if n.startswith("z")]          # operations on the Zoo instance of the context
+    names = [n for n in allnames if n not in znames]
     starters = ["new_default", "new_kids", "new_deep", "sub1_new", "sub2_new", "sub2_new_args"]
+    zstarters = [[], ["z_new"], ["zk_new"], ["z_new_default"]]
     cases = []
     # plain histories
     for i in range(60 if quick else 400):
         h = [rng.choice(starters)] + [rng.choice(names) for _ in range(rng.randint(1, 5 if quick else 9))]
         cases.append(dict(kind="plain", hist=h, user=(i % 3 == 2), created0=(i % 2 == 0)))
+    # plain histories over everything (Node and Zoo operations interleaved)
+    for i in range(60 if quick else 400):
+        h = rng.choice(zstarters) + [rng.choice(znames if rng.random() < 0.7 else names)
+                                     for _ in range(rng.randint(2, 5 if quick else 9))]
+        cases.append(dict(kind="plainz", hist=h, user=(i % 3 == 1), created0=(i % 2 == 1), zkid=(i % 4 >= 2)))
     # every operation once after every starter, with and without a user's entry
     for s in starters:
         for n in names:
             for user in (False, True):
                 cases.append(dict(kind="each", hist=[s, n], user=user, created0=not user))
+    for ni, n in enumerate(znames):
+        sts = zstarters if not quick else [[], zstarters[1 + ni % 3]]
+        for si, s in enumerate(sts):
+            for user in (False, True):
+                cases.append(dict(kind="eachz", hist=s + [n], user=user, created0=not user,
+                                  zkid=((si + ni) % 2 == 0) == user))
     # __post_copy__ raising at its k-th call
     for i in range(40 if quick else 300):
         h = [rng.choice(starters)] + [rng.choice(names) for _ in range(rng.randint(1, 3))]
         j = rng.randrange(len(h))
         cases.append(dict(kind="boom", hist=h, user=(i % 4 == 3), created0=(i % 2 == 1), boom=(j, rng.randint(1, 4))))
+    for i in range(40 if quick else 300):
+        h = rng.choice(zstarters) + [rng.choice(znames) for _ in range(rng.randint(1, 3))]
+        j = rng.randrange(len(h))
+        cases.append(dict(kind="boomz", hist=h, user=(i % 4 == 1), created0=(i % 2 == 0), boom=(j, rng.randint(1, 3)),
+                          zkid=(i % 3 == 0)))
     # an attribute value of a spec instance raises in __deepcopy__ (1st .. 4th Flaky copy of the operation):
     # every copying operation, after every starter (the fallback instance and new_flaky hold Flaky values)
     copying = ["with_tag", "with_kid", "with_mod", "with_extra", "with_flaky", "update", "update_extra",
@@ -759,6 +1076,14 @@ def gen_seq_cases(rng, tier):
                 h = start + [op, "deepcopy_inst"]
                 cases.append(dict(kind="flaky", hist=h, user=(i % 5 == 4), created0=(i % 2 == 1),
                                   flaky=(len(start), k)))
+    # the same for the Zoo operations: the raising values sit in plain containers / plain objects / a spec instance
+    # with its own __deepcopy__, so the abort happens inside the copy made by each entry point itself
+    for op in ZOO_COPYING:
+        for k in (1, 2) if quick else (1, 2, 3, 4, 5):
+            for start in ([], ["zk_new"]) if quick else ([], ["z_new"], ["zk_new", "z_with_extra"]):
+                i += 1
+                cases.append(dict(kind="flakyz", hist=start + [op, "z_deepcopy"], user=(i % 5 == 3),
+                                  created0=(i % 2 == 0), flaky=(len(start), k), zkid=(i % 3 == 1)))
     return cases
 
 
@@ -780,6 +1105,17 @@ def gen_injection_cases(rng, tier):
             (["new_kids", "with_mod", "update"], 1, True, True),
             (["new_default", "with_tag", "with_tag"], 0, False, False),
             (["new_kids", "transform_tag", "reset_mods"], 1, False, True),
+        ]
+    hists += [
+        (["z_transform_extra", "z_update_one_attr"], 0, False, False),
+        (["zk_new", "z_with_cust_attr"], 1, False, True),
+    ]
+    if not quick:
+        hists += [
+            (["z_transform_table", "z_update_extra_same", "z_alias_read"], 1, True, True),
+            (["z_new", "z_with_plist", "z_deepcopy"], 1, False, False),
+            (["z_new_default", "zk_new", "z_reset_all"], 1, False, True),
+            (["z_with_mod", "z_transform_one_attr", "z_transform_any"], 1, False, False),
         ]
     cases = []
     for hist, j, user, created0 in hists:
@@ -825,6 +1161,42 @@ def conc_values(name):
                 o.reset_table(_inplace=True)
                 return o
             return ("call", run, sub_defaults_ok)
+        return mk
+    # helpers and constructors whose value holds its modules in plain containers / plain objects (every copy is made
+    # by the entry point itself, not by a spec instance's __deepcopy__)
+    if name == "zoo_transform":
+        def mk():
+            o = raw("Zoo", extra=[Probe(sys), {"k": os}])
+            return ("call", lambda: o.transform_extra(_bump),
+                    lambda r: r is not o and len(o.extra) == 2 and r.extra[-1] is sys and same_copy(o.extra, r.extra[:-1]))
+        return mk
+    if name == "zoo_update":
+        def mk():
+            o = raw("Zoo", one=raw("Cust", m=[Probe(sys), (os,)]), hold=Holder(sys, inner=[json]))
+            return ("call", lambda: o.update_one(n=3).update_hold(MISSING_),
+                    lambda r: r is not o and r.one.n == 3 and o.one.n == 0 and same_copy(o.one.m, r.one.m)
+                    and same_copy(o.hold, r.hold) and r.hold is not o.hold)
+        return mk
+    if name == "zoo_elem":
+        def mk():
+            import math
+            o = raw("Zoo", mods=[sys, os], custs=[raw("Cust", m=[Probe(os)])])
+            return ("call", lambda: o.with_mod(math).transform_cust(0, n=lambda n: n + 1),
+                    lambda r: r is not o and same_copy([sys, os, math], r.mods) and len(o.mods) == 2
+                    and r.custs[0].n == 1 and same_copy(o.custs[0].m, r.custs[0].m))
+        return mk
+    if name == "zoo_kid_new":
+        def mk():
+            vals = dict(extra=[Probe(sys), (os,)], own=[json, [sys]], plist=MList([os]))
+            return ("call", lambda: CLS["ZooKid"](**vals),
+                    lambda r: all(same_copy(v, getattr(r, a)) for a, v in vals.items()) and same_copy([sys], r.mods))
+        return mk
+    if name == "zoo_alias":
+        def mk():
+            o = raw("Zoo", extra=[Probe(sys)])
+            return ("call", lambda: (o.al, o.transform_al(_bump)),
+                    lambda r: same_copy(ZOO_FALLBACK[0], r[0]) and r[0] is not ZOO_FALLBACK[0]
+                    and same_copy(o.extra, r[1].extra))
         return mk
     if name == "flaky":      # copy of a spec instance aborted half way: an attribute value raises
         return lambda: ("deepcopy", Node(kids=[Leaf(ms=[Probe(sys)])], extra=[Probe(os), Flaky(always=True)],
@@ -1097,7 +1469,7 @@ def with_line(lineno):
 
 def run_seq_case(c):
     res = run_history(c["hist"], c["user"], c["created0"], inject=c.get("inject"), boom=c.get("boom"),
-                      flaky=c.get("flaky"))
+                      flaky=c.get("flaky"), zkid=bool(c.get("zkid")))
     term, prog, trace = seq_case_term(c["user"], c["created0"], res["events"], res["planned"])
     c = dict(c, term=term, prog=prog, trace=trace, planned=res["planned"], fired=res["fired"], nlines=res["nlines"],
              errors=res["errors"])
@@ -1142,7 +1514,8 @@ def shrink_seq(c):
 
 def describe_seq(c):
     return {"kind": "seq", "hist": c["hist"], "user": c["user"], "created0": c["created0"],
-            "inject": c.get("inject"), "boom": c.get("boom"), "flaky": c.get("flaky"), "fired": c.get("fired"),
+            "inject": c.get("inject"), "boom": c.get("boom"), "flaky": c.get("flaky"), "zkid": bool(c.get("zkid")),
+            "fired": c.get("fired"),
             "abort_pc": c.get("abort_pc"), "planned": c.get("planned"),
             "outcome_per_operation": c.get("errors"),
             "unplanned_exceptions": [e for e, p in zip(c.get("errors") or [], c.get("planned") or []) if e and not p],
@@ -1186,7 +1559,7 @@ def load_corpus():
                     out.append(dict(kind="corpus", hist=r["hist"], user=r["user"], created0=r["created0"],
                                     inject=tuple(r["inject"]) if r.get("inject") else None,
                                     boom=tuple(r["boom"]) if r.get("boom") else None,
-                                    flaky=tuple(r["flaky"]) if r.get("flaky") else None))
+                                    flaky=tuple(r["flaky"]) if r.get("flaky") else None, zkid=bool(r.get("zkid"))))
     return out
 
 
@@ -1197,6 +1570,7 @@ def setup():
     if not CLS:
         CLS["Leaf"], CLS["Node"] = make_classes()
         make_subclasses()
+        make_zoo()
     sys.setswitchinterval(1e-4)
 
 
@@ -1209,7 +1583,7 @@ def main(tier, replay=None):
             c = run_seq_case(dict(hist=r["hist"], user=r["user"], created0=r["created0"],
                                   inject=tuple(r["inject"]) if r.get("inject") else None,
                                   boom=tuple(r["boom"]) if r.get("boom") else None,
-                                  flaky=tuple(r["flaky"]) if r.get("flaky") else None))
+                                  flaky=tuple(r["flaky"]) if r.get("flaky") else None, zkid=bool(r.get("zkid"))))
             bad, logs = eval_seq([c], tag="r")
             print("replay:", "still failing code=%s" % bad[0][1] if bad else "passes now", logs)
             print("observed now:", c["trace"])
@@ -1241,7 +1615,7 @@ def main(tier, replay=None):
                           f"{type(e).__name__}: {e}"[:300],
                           {"kind": "seq", "hist": c["hist"], "user": c["user"], "created0": c["created0"],
                            "inject": c.get("inject"), "boom": c.get("boom"), "flaky": c.get("flaky"),
-                           "error": repr(e)},
+                           "zkid": bool(c.get("zkid")), "error": repr(e)},
                           sig={"kind": "seq-crash"}, no_input=False)
     timings["seq_run_s"] = round(time.time() - t0, 1)
     t0 = time.time()
@@ -1296,7 +1670,8 @@ def main(tier, replay=None):
     if quick:
         conf = [(["flat", "flat"], False, False, 2, 1, 40), (["nested", "flat"], False, True, 2, 12, 25),
                 (["flat2", "tiny"], True, False, 1, 1, 10), (["boom", "flat"], False, False, 1, 1, 10),
-                (["flaky", "flat"], False, False, 1, 1, 12), (["sub_new", "flat"], False, False, 1, 1, 12)]
+                (["flaky", "flat"], False, False, 1, 1, 12), (["sub_new", "flat"], False, False, 1, 1, 12),
+                (["zoo_transform", "flat"], False, False, 1, 1, 12)]
     else:
         conf = [(["flat", "flat"], False, False, 2, 1, 150), (["nested", "flat"], False, True, 2, 1, 240),
                 (["inst", "flat2"], False, False, 2, 2, 200), (["flat2", "tiny"], True, False, 2, 1, 60),
@@ -1304,7 +1679,9 @@ def main(tier, replay=None):
                 (["flat", "flat", "flat"], False, False, 2, 2, 300), (["tiny", "nested", "flat"], False, True, 2, 12, 200),
                 (["flat", "tiny", "boom"], True, False, 2, 4, 60), (["flaky", "flat"], False, False, 2, 2, 120),
                 (["flat", "inst"], False, True, 2, 3, 120),
-                (["sub_new", "flat"], False, False, 2, 3, 120), (["sub_reset", "sub_del", "flat"], False, True, 1, 1, 60)]
+                (["sub_new", "flat"], False, False, 2, 3, 120), (["sub_reset", "sub_del", "flat"], False, True, 1, 1, 60),
+                (["zoo_transform", "flat"], False, False, 2, 3, 120), (["zoo_update", "zoo_elem"], False, True, 1, 1, 60),
+                (["zoo_kid_new", "zoo_alias", "flat"], True, False, 1, 1, 60)]
     enum_stats = []
     for names, user, created0, max_pre, stride2, budget in conf:
         rs, nplans = enumerate_schedules(names, user, created0, max_pre, rng, budget, stride2)
@@ -1316,9 +1693,12 @@ def main(tier, replay=None):
     yconf = [(["flat", "sub_new"], False, True, 2), (["flat2", "sub_reset"], False, False, 2),
              (["flat", "sub_del"], True, True, 1),
              (["flat", "inst"], False, True, 3), (["flat", "flaky"], False, False, 2),
-             (["flaky_in_list", "flat2"], False, True, 2), (["flat", "inst"], True, False, 2)]
+             (["flaky_in_list", "flat2"], False, True, 2), (["flat", "inst"], True, False, 2),
+             (["flat", "zoo_transform"], False, True, 2), (["zoo_update", "flat2"], False, False, 1),
+             (["zoo_elem", "zoo_alias"], False, True, 1), (["flat", "zoo_kid_new"], True, False, 1)]
     if not quick:
-        yconf += [(["nested", "inst"], False, False, 3), (["flaky", "flaky_in_list"], False, True, 3),
+        yconf += [(["zoo_transform", "zoo_update"], False, False, 2), (["zoo_kid_new", "zoo_elem"], False, True, 2),
+                  (["nested", "inst"], False, False, 3), (["flaky", "flaky_in_list"], False, True, 3),
                   (["flat", "inst", "flaky"], False, False, 2), (["inst", "inst"], False, True, 3)]
     for names, user, created0, msw in yconf:
         rs, nplans = enumerate_yield_schedules(names, user, created0, msw, max_occ=6 if quick else 8)
@@ -1331,7 +1711,8 @@ def main(tier, replay=None):
         names = rng.choice([["flat", "flat"], ["nested", "flat2"], ["inst", "flat"], ["flat", "tiny", "nested"],
                             ["boom", "flat2"], ["flat2", "flat", "flat"], ["flat", "inst"], ["flaky", "flat2"],
                             ["flaky_in_list", "inst"], ["sub_new", "flat"], ["sub_reset", "sub_del"],
-                            ["flat2", "sub_del"]])
+                            ["flat2", "sub_del"], ["zoo_transform", "flat"], ["zoo_update", "zoo_transform"],
+                            ["zoo_elem", "flat2"], ["zoo_kid_new", "zoo_alias"], ["zoo_alias", "zoo_update", "flat"]])
         if quick and len(names) > 2:
             names = names[:2]
         r = run_schedule(names, i % 5 == 4, i % 2 == 0, random_chooser(rng, rng.choice([0.1, 0.3, 0.6])))
